@@ -28,6 +28,8 @@ pub fn fld(name: &str, lo: u32, w: u32, ty: FieldTy, access: Access) -> Field {
         array: None,
         ty,
         access,
+        arg_order: 0,
+                opt_path: 0,
     }
 }
 
@@ -93,7 +95,7 @@ fn small_enum(name: &str, bits: u32, plain: bool) -> EnumDecl {
     let mut variants = Vec::new();
     if plain {
         for d in 0..n {
-            variants.push(Variant { name: format!("V{}", d), disc: Disc::Lit { value: d, radix: 10, underscore: false }, cfg: Cfg::None });
+            variants.push(Variant { name: format!("V{}", d), disc: Disc::Lit { value: d, radix: 10, underscore: false }, cfg: Cfg::None, style: 0 });
         }
         EnumDecl { name: name.into(), bits, variants, exhaustive: Exh::True, colon: false, qualified: false }
     } else {
@@ -105,7 +107,7 @@ fn small_enum(name: &str, bits: u32, plain: bool) -> EnumDecl {
             ds.pop();
         }
         for (k, d) in ds.iter().enumerate() {
-            variants.push(Variant { name: format!("V{}", k), disc: Disc::Lit { value: *d, radix: 16, underscore: false }, cfg: Cfg::None });
+            variants.push(Variant { name: format!("V{}", k), disc: Disc::Lit { value: *d, radix: 16, underscore: false }, cfg: Cfg::None, style: 0 });
         }
         EnumDecl { name: name.into(), bits, variants, exhaustive: Exh::False, colon: false, qualified: false }
     }
@@ -238,7 +240,7 @@ pub fn sys_lists(tier: Tier) -> Vec<Layout> {
                             r.swap(0, n - 1);
                         }
                     }
-                    let f = Field { name: "l".into(), kw_bit: false, list: true, ranges: r, array: None, ty: ty.clone(), access: Access::RW };
+                    let f = Field { name: "l".into(), kw_bit: false, list: true, ranges: r, array: None, ty: ty.clone(), access: Access::RW, arg_order: 0, opt_path: 0 };
                     let mut l = lay(b, vec![f]);
                     if let Some(e) = en {
                         l.enums.push(e.clone());
@@ -268,6 +270,8 @@ pub fn sys_lists(tier: Tier) -> Vec<Layout> {
                     array: Some(ArrayDecl { count: k, stride: Some(stride), colon: false }),
                     ty: uty(3),
                     access: Access::RW,
+                    arg_order: 0,
+                opt_path: 0,
                 };
                 out.push(lay(b, vec![f]));
             }
@@ -308,6 +312,8 @@ pub fn sys_signed(tier: Tier) -> Vec<Layout> {
                     array: None,
                     ty: FieldTy::INat { bits: n },
                     access: Access::RW,
+                    arg_order: 0,
+                opt_path: 0,
                 };
                 out.push(lay(b, vec![f]));
             }
@@ -412,18 +418,26 @@ pub fn corpus(prop: &str, tier: Tier, seed: u64) -> Vec<(usize, Layout)> {
         }
         "C03" => {
             v.extend(sys_arrays(tier));
-            let mut p = prof([2, 4, 3, 2, 2, 2, 1], [1, 5, 0, 0]);
+            let mut p = prof([2, 4, 3, 2, 2, 2, 1], [1, 5, 0, 2]);
             p.force_shape = Some(1);
             p.access = AccessMode::Mixed;
             p.w_twin = true;
             v.extend(random(&p, seed, 1, nrand / 2));
             p.base = BaseMode::SmallBias;
             v.extend(random(&p, seed, 2, nrand / 2));
+            // arrays of range-list elements (explicit stride, any list order, interleaving)
+            p.base = BaseMode::Any;
+            p.force_shape = Some(3);
+            p.shapes = [1, 1, 0, 6];
+            v.extend(random(&p, seed, 3, nrand / 3));
+            v.extend(sys_lists(Tier::Quick).into_iter().filter(|l| l.fields.iter().any(|f| f.is_array())));
         }
         "C04" => {
             v.extend(sys_lists(tier));
             let mut p = prof([0, 5, 3, 2, 1, 1, 1], [1, 0, 4, 3]);
             p.force_shape = Some(2);
+            p.access = AccessMode::Mixed;
+            p.w_twin = true;
             v.extend(random(&p, seed, 1, nrand / 2));
             p.base = BaseMode::SmallBias;
             p.force_shape = Some(3);
@@ -433,6 +447,8 @@ pub fn corpus(prop: &str, tier: Tier, seed: u64) -> Vec<(usize, Layout)> {
             v.extend(sys_signed(tier));
             let mut p = prof([1, 1, 1, 8, 0, 0, 0], [4, 2, 2, 1]);
             p.force_kind = Some(3);
+            p.access = AccessMode::Mixed;
+            p.w_twin = true;
             v.extend(random(&p, seed, 1, nrand));
         }
         "C08" => {
@@ -440,6 +456,8 @@ pub fn corpus(prop: &str, tier: Tier, seed: u64) -> Vec<(usize, Layout)> {
             for (k, fk) in [4usize, 5, 6].iter().enumerate() {
                 let mut p = prof([1, 1, 0, 0, 4, 4, 3], [4, 2, 2, 1]);
                 p.force_kind = Some(*fk);
+                p.access = AccessMode::Mixed;
+                p.w_twin = true;
                 v.extend(random(&p, seed, 1 + k as u64, nrand / 3));
             }
         }
@@ -475,6 +493,11 @@ pub fn corpus(prop: &str, tier: Tier, seed: u64) -> Vec<(usize, Layout)> {
                     p.default = DefaultMode::Never;
                     p.access = AccessMode::Mixed;
                     let mut l = if k % 2 == 0 { build_layout_on(&p, &mut src, b) } else { lay(b, vec![]) };
+                    if k % 2 == 1 && k % 3 == 0 {
+                        // `debug` next to the default, in both argument orders
+                        l.debug = true;
+                        l.debug_first = k % 4 == 1;
+                    }
                     let m = mask(b);
                     let val = match k % 5 {
                         0 => m,
@@ -600,7 +623,7 @@ pub fn enum_corpus(tier: Tier, seed: u64) -> Vec<(usize, EnumDecl)> {
             v.push(EnumDecl {
                 name: "E".into(),
                 bits: n,
-                variants: vec![Variant { name: "Only".into(), disc: Disc::Lit { value: d, radix: 16, underscore: true }, cfg: Cfg::None }],
+                variants: vec![Variant { name: "Only".into(), disc: Disc::Lit { value: d, radix: 16, underscore: true }, cfg: Cfg::None, style: 0 }],
                 exhaustive: if d == 0 { Exh::False } else { Exh::Omitted },
                 colon: false,
                 qualified: false,
@@ -610,7 +633,7 @@ pub fn enum_corpus(tier: Tier, seed: u64) -> Vec<(usize, EnumDecl)> {
             for missing in [0u128, m, m / 2] {
                 let variants = (0..=m)
                     .filter(|d| *d != missing)
-                    .map(|d| Variant { name: format!("V{}", d), disc: Disc::Lit { value: d, radix: 10, underscore: false }, cfg: Cfg::None })
+                    .map(|d| Variant { name: format!("V{}", d), disc: Disc::Lit { value: d, radix: 10, underscore: false }, cfg: Cfg::None, style: 0 })
                     .collect::<Vec<_>>();
                 if variants.is_empty() {
                     continue;
@@ -619,14 +642,14 @@ pub fn enum_corpus(tier: Tier, seed: u64) -> Vec<(usize, EnumDecl)> {
             }
             // conditional with two variants sharing a discriminant under complementary cfgs, and all values listed
             let mut variants: Vec<Variant> = (0..=m)
-                .map(|d| Variant { name: format!("V{}", d), disc: Disc::Lit { value: d, radix: 10, underscore: false }, cfg: if d % 2 == 1 { Cfg::Always } else { Cfg::None } })
+                .map(|d| Variant { name: format!("V{}", d), disc: Disc::Lit { value: d, radix: 10, underscore: false }, cfg: if d % 2 == 1 { Cfg::Always } else { Cfg::None }, style: (d % 4) as u8 })
                 .collect();
-            variants.push(Variant { name: "Off".into(), disc: Disc::Lit { value: m, radix: 10, underscore: false }, cfg: Cfg::Never });
+            variants.push(Variant { name: "Off".into(), disc: Disc::Lit { value: m, radix: 10, underscore: false }, cfg: Cfg::Never, style: 0 });
             v.push(EnumDecl { name: "E".into(), bits: n, variants: variants.clone(), exhaustive: Exh::Conditional, colon: false, qualified: false });
             // the disabled twin declared *before* the enabled variant with the same discriminant
             let off = variants.pop().unwrap();
             variants.insert(0, Variant { disc: Disc::Lit { value: m / 2, radix: 10, underscore: false }, ..off.clone() });
-            variants.insert((m / 2) as usize + 1, Variant { name: "Off2".into(), disc: Disc::Lit { value: m / 2, radix: 16, underscore: false }, cfg: Cfg::Never });
+            variants.insert((m / 2) as usize + 1, Variant { name: "Off2".into(), disc: Disc::Lit { value: m / 2, radix: 16, underscore: false }, cfg: Cfg::Never, style: 0 });
             v.push(EnumDecl { name: "E".into(), bits: n, variants, exhaustive: Exh::Conditional, colon: false, qualified: false });
         }
     }
